@@ -34,9 +34,8 @@ SPEC = {
             "by decreasing value, shuffled + insert/remove of an extra vertex) on 4 option sets (5 with the int Filtration_value set when the values are "
             "integral); value sets: dyadic with 2-5 distinct values (+rare +inf) | special members of the float range (-inf, lowest(), -0.0, 0.0, "
             "denorm_min(), max(), +inf) | whole numbers incl. INT_MIN; each filtration_simplex_range is checked to be a permutation of the (non-ignored) "
-            "simplices, non-decreasing, faces-first, all 16-20 sequences must be identical AND equal to the documented order (value, ties in reverse "
-            "lexicographic order); the same complex in an option set with store_filtration=false must list a faces-first permutation in reverse "
-            "lexicographic order; (mfnd_*, 5 option sets incl. int values) arbitrary non-monotone assignments (a quarter of the floating cases mixing in "
+            "simplices, non-decreasing, faces-first, all 16-20 sequences must be identical (whether they equal the documented order - value, ties in reverse "
+            "lexicographic order - is counted, not judged: the property does not fix the tie-break); the same complex in an option set with store_filtration=false must list a faces-first permutation that is the same for two histories and for a tree storing equal values; (mfnd_*, 5 option sets incl. int values) arbitrary non-monotone assignments (a quarter of the floating cases mixing in "
             "-inf, -0.0, max(), lowest(), denorm_min()), on half of the cases reset_filtration(v, min_dim) first with min_dim in {-1..dim+1, INT_MAX} "
             "(= v on dimension >= min_dim, cache dropped), then make_filtration_non_decreasing = pointwise max over faces, return value, idempotence, "
             "then prune_above_filtration (thresholds incl. -inf, -0.0, +inf, INT_MIN/INT_MAX for int) = sublevel set + return value, full read-interface "
@@ -51,8 +50,7 @@ SPEC = {
             "complex; (hist_*, 5 option sets) model-generated operation histories (C01's generator WITH its extensions: repeated vertices, out-of-order "
             "streams, -inf / negative values and thresholds, extreme labels, batch and graph variants) with the order re-validated after every step, the "
             "cache being reset by the caller only where the documentation requires it; hist_int runs the history with all values multiplied by 8 on an int "
-            "Filtration_value, hist_mini (store_filtration=false, no prune_above_filtration) checks a faces-first permutation in reverse lexicographic "
-            "order; the filtration cache is warm before reset_filtration / make_filtration_non_decreasing / prune / extend_filtration on half of the cases; "
+            "Filtration_value, hist_mini (store_filtration=false, no prune_above_filtration) checks a faces-first permutation equal to the one of a tree rebuilt from the model; the filtration cache is warm before reset_filtration / make_filtration_non_decreasing / prune / extend_filtration on half of the cases; "
             "(small_dbg) order, mfnd_default, ext_default built WITHOUT -DNDEBUG: a GUDHI_CHECK firing on these valid inputs is a violation "
             "(debug.gudhi_check); (cubical) 1-3 dimensional plain / periodic / vertex-built cubical complexes with 1-5 distinct values and up to ~25000 cells: the filtration order is valid and one single sequence per complex across TBB thread limits and the TBB / non-TBB builds; (threads) TSan: 8 threads on independent trees. "
             "non-trivial = complex with ties and >= 6 simplices / value assignment that changes / non-constant vertex function / big complex >= 3000 simplices",
